@@ -131,6 +131,30 @@ def binary(x, success=None):
     return np.where(booleans, 1, 0)
 
 
+@register_stateful_transform
+class Binary:
+    """Stateful version of :func:`binary` used in model formulas.
+
+    It remembers the success level found with the original data, so new data is compared with
+    the same level, no matter which values it contains.
+    """
+
+    __transform_name__ = "binary"
+
+    def __init__(self):
+        self.params_set = False
+        self.success = None
+
+    def __call__(self, x, success=None):
+        if not self.params_set:
+            if success is None:
+                success = sorted(x.unique().tolist())[0]
+            self.success = success
+            self.params_set = True
+            return binary(x, self.success)
+        return np.where(x == self.success, 1, 0)
+
+
 class Proportion:
     """Representation of a proportion term.
 
@@ -428,8 +452,8 @@ class Polynomial:
 
 TRANSFORMS.update(
     {
-        "B": binary,
-        "binary": binary,
+        "B": Binary,
+        "binary": Binary,
         "C": C,
         "I": I,
         "offset": offset,
